@@ -94,7 +94,7 @@ def mutations(nr, nc):
         m.append(['set', 'matrix_type', val])
     for val in ('int', 'str', 'unicode', 'float', 'Float', 'bogus', '', 5, None, ['int']):
         m.append(['set', 'matrix_element_type', val])
-    m += [['dense'], ['ints'], ['dense-short'], ['dense-ragged'], ['dense-int-cell']]
+    m += [['dense'], ['ints'], ['dense-short'], ['dense-ragged'], ['dense-int-cell'], ['ints-bool'], ['dense-bool-cell']]
     # date / format / url / generated_by / type / id
     for val in ('yesterday', '', 5, None, '2020-13-01', '2020-02-30', '2020-02-29', '2019-02-29', '2020-1-5',
                 '2020-01-01T25:00', '2020-01-01T10:00:61', '2020-01-01T10:00:00.1234567', '2020-01-01t10:00',
@@ -146,7 +146,7 @@ def apply_mut(doc, mu):
                 j = mu[3] % len(recs)
                 if isinstance(recs[j], dict) and 'id' in recs[j] and i != j:
                     recs[i]['id'] = recs[j]['id']
-        elif op in ('dense', 'dense-short', 'dense-ragged', 'dense-int-cell'):
+        elif op in ('dense', 'dense-short', 'dense-ragged', 'dense-int-cell', 'dense-bool-cell'):
             sh, data = doc.get('shape'), doc.get('data')
             if (isinstance(sh, list) and len(sh) == 2 and all(type(x) is int and x >= 0 for x in sh)
                     and isinstance(data, list) and doc.get('matrix_type') == 'sparse'):
@@ -161,14 +161,20 @@ def apply_mut(doc, mu):
                     M[0] = M[0][:-1]
                 if op == 'dense-int-cell' and M and M[0]:
                     M[0][0] = 1
+                if op == 'dense-bool-cell' and M and M[0]:
+                    M = [[int(v) for v in r] for r in M]
+                    M[-1][-1] = True
+                    doc['matrix_element_type'] = 'int'
                 doc['matrix_type'] = 'dense'
                 doc['data'] = M
-        elif op == 'ints':
+        elif op in ('ints', 'ints-bool'):
             data = doc.get('data')
             if isinstance(data, list) and all(isinstance(cd, list) and len(cd) == 3 and isinstance(cd[2], float)
                                               for cd in data):
                 doc['matrix_element_type'] = 'int'
                 doc['data'] = [[cd[0], cd[1], int(cd[2]) or 1] for cd in data]
+                if op == 'ints-bool':
+                    doc['data'].append([0, 0, True])
     except (TypeError, AttributeError, KeyError, IndexError):
         return
 
